@@ -292,54 +292,92 @@ def seq_oracle(run):
         else:
             run.oracle_ok("probabilistic")
 
-    # composite distribution: two heads, per-key samples and log-probs
-    for it, rlp in itertools.product(list(InteractionType), [False, True]):
-        case = ["composite", str(it), rlp]
-        run.case(("composite", str(it), rlp))
+    composite_oracle(run)
+
+
+def composite_oracle(run):
+    """CompositeDistribution heads (a Normal and an Independent(Normal)): for composite_lp_aggregate on/off x num_samples None/k x every
+    interaction type, the log-probabilities the module writes equal (shape and value) both `module.get_dist(params).log_prob(sample)`
+    and the plain torch distributions built from the same parameters; samples have the advertised shape and the named statistic."""
+    from tensordict import TensorDict
+    from tensordict.nn import (CompositeDistribution, ProbabilisticTensorDictModule, set_composite_lp_aggregate, set_interaction_type)
+    from tensordict.nn.probabilistic import InteractionType
+
+    def indep_normal(loc, scale):
+        return D.Independent(D.Normal(loc, scale), 1)
+    for second, agg, ns, it in itertools.product(["indep_normal", "categorical"], [True, False], [None, 4], list(InteractionType)):
+        case = ["composite", second, "aggregate" if agg else "per-key", ns, str(it)]
+        run.case(("composite", second, agg, ns, str(it)))
         torch.manual_seed(4)
-        params = TensorDict({"params": {"cont": {"loc": torch.randn(4, 3), "scale": torch.rand(4, 3) + 0.5},
-                                        "disc": {"logits": torch.randn(4, 5)}}}, batch_size=[4])
+        td = TensorDict({"params": {"x": {"loc": torch.randn(3), "scale": torch.rand(3) + 0.5},
+                                    "y": ({"loc": torch.randn(3, 2), "scale": torch.rand(3, 2) + 0.5} if second == "indep_normal"
+                                          else {"logits": torch.randn(3, 5)})},
+                         "other": torch.arange(3.0)}, [3])
+        p = td["params"]
+        ydist = indep_normal if second == "indep_normal" else D.Categorical
+        yshape = (3, 2) if second == "indep_normal" else (3,)
+        bad = []
         try:
-            mod = ProbabilisticTensorDictModule(
-                in_keys=["params"], out_keys=["cont", "disc"], distribution_class=CompositeDistribution,
-                distribution_kwargs={"distribution_map": {"cont": D.Normal, "disc": D.Categorical}}, return_log_prob=rlp)
             with warnings.catch_warnings():
                 warnings.simplefilter("ignore")
-                with time_limit(90), set_interaction_type(it):
-                    torch.manual_seed(2)
-                    out = mod(params.copy())
+                with time_limit(60), set_composite_lp_aggregate(agg):
+                    mod = ProbabilisticTensorDictModule(
+                        in_keys=["params"], out_keys=["x", "y"], distribution_class=CompositeDistribution,
+                        distribution_kwargs={"distribution_map": {"x": D.Normal, "y": ydist}},
+                        return_log_prob=True, num_samples=ns, default_interaction_type=it)
+                    with set_interaction_type(it):
+                        out = mod(td.clone())
+                        dist = mod.get_dist(td.clone())
+                        lp_dist = dist.log_prob(out.select("x", "y"))
         except TimeoutError:
             raise
-        except Exception as e:  # noqa: BLE001
-            run.count("prob.unavailable", f"composite/{it}:{type(e).__name__}")
+        except Exception as e:  # noqa: BLE001  (statistic unavailable, or num_samples with a non-random type)
+            run.count("prob.unavailable", f"composite/{second}/{'agg' if agg else 'perkey'}/{ns}/{it}:{type(e).__name__}")
             continue
-        refc = D.Normal(params["params", "cont", "loc"], params["params", "cont", "scale"])
-        refd = D.Categorical(logits=params["params", "disc", "logits"])
-        bad = []
-        torch.manual_seed(2)
-        if it == InteractionType.RANDOM:
-            wc, wd = refc.rsample(), None   # sampling order inside the composite is its own business: check supports only
-            if out["cont"].shape != wc.shape or out["disc"].shape != torch.Size([4]):
-                bad.append("sample shapes")
-        elif it in (InteractionType.MODE,):
-            if not torch.allclose(out["cont"], refc.mode) or not torch.equal(out["disc"], refd.mode):
-                bad.append("mode")
-        elif it == InteractionType.MEAN:
-            if not torch.allclose(out["cont"], refc.mean):
-                bad.append("mean")
-        if rlp:
-            keys = [k for k in out.keys(True, True) if "log_prob" in str(k)]
-            lpc = [out[k] for k in keys if "cont" in str(k)]
-            if lpc and not torch.allclose(lpc[0].reshape(4, -1).sum(-1) if lpc[0].ndim > 1 else lpc[0], refc.log_prob(out["cont"]).sum(-1)) \
-                    and not torch.allclose(lpc[0], refc.log_prob(out["cont"])):
-                bad.append("composite log-prob of the continuous head")
-            lpd = [out[k] for k in keys if "disc" in str(k)]
-            if lpd and not torch.allclose(lpd[0], refd.log_prob(out["disc"])):
-                bad.append("composite log-prob of the discrete head")
+        lead = () if ns is None or it != InteractionType.RANDOM else (ns,)
+        if ns is not None and it == InteractionType.RANDOM:
+            lead = (ns,)
+        if tuple(out["x"].shape) != (*lead, 3) or tuple(out["y"].shape) != (*lead, *yshape):
+            bad.append(f"sample shapes {tuple(out['x'].shape)}, {tuple(out['y'].shape)}")
+        else:
+            lx = D.Normal(p["x", "loc"], p["x", "scale"]).log_prob(out["x"])
+            if second == "indep_normal":
+                ly = D.Normal(p["y", "loc"], p["y", "scale"]).log_prob(out["y"]).sum(-1)
+                ymode = p["y", "loc"]
+            else:
+                ly = D.Categorical(logits=p["y", "logits"]).log_prob(out["y"])
+                ymode = p["y", "logits"].argmax(-1)
+            if it == InteractionType.MODE and not (torch.allclose(out["x"], p["x", "loc"]) and torch.equal(out["y"].to(ymode.dtype), ymode)):
+                bad.append("mode is not the mode of the heads")
+            if it == InteractionType.MEAN and second == "indep_normal" and not (torch.allclose(out["x"], p["x", "loc"]) and torch.allclose(out["y"], ymode)):
+                bad.append("mean is not the mean of the heads")
+            if agg:
+                want = lx + ly
+                got = out.get(mod.log_prob_key, None)
+                if got is None or got.shape != want.shape or not torch.allclose(got, want):
+                    bad.append(f"aggregated log-prob written by the module: shape {None if got is None else tuple(got.shape)} vs {tuple(want.shape)} / values")
+                if not isinstance(lp_dist, torch.Tensor) or lp_dist.shape != want.shape or not torch.allclose(lp_dist, want):
+                    bad.append(f"get_dist(params).log_prob(sample): shape {tuple(lp_dist.shape) if isinstance(lp_dist, torch.Tensor) else type(lp_dist).__name__} "
+                               f"vs the module's {tuple(want.shape)} / values")
+            else:
+                for name, want in (("x", lx), ("y", ly)):
+                    keys = [k for k in out.keys(True, True) if "log_prob" in str(k) and name in str(k)]
+                    if not keys:
+                        bad.append(f"no log-prob entry for head {name}")
+                        continue
+                    got = out.get(keys[0])
+                    if got.shape != want.shape or not torch.allclose(got, want):
+                        bad.append(f"log-prob of head {name} written by the module: shape {tuple(got.shape)} vs {tuple(want.shape)} / values")
+                    dgot = lp_dist.get(keys[0], None) if not isinstance(lp_dist, torch.Tensor) else None
+                    if dgot is None or dgot.shape != want.shape or not torch.allclose(dgot, want):
+                        bad.append(f"get_dist(params).log_prob(sample)[{keys[0]}] differs from the module's entry")
+        if not torch.equal(out["other"] if ns is None or it != InteractionType.RANDOM else out["other"][0], td["other"]):
+            bad.append("an unrelated entry changed")
         if bad:
-            run.oracle_fail("probabilistic", case, "; ".join(bad), "composite:" + str(it))
+            run.oracle_fail("probabilistic", case, "; ".join(bad), f"composite:{second}:{'agg' if agg else 'perkey'}:{ns}:{it}")
         else:
             run.oracle_ok("probabilistic")
+            run.count("prob.composite_ok", f"{second}/{'agg' if agg else 'perkey'}/{ns}/{it}")
 
 
 def context_oracle(run):
